@@ -37,7 +37,7 @@ Group(g) ==
     [] g = "generic" -> {Rec(<<Lex>>, 1, 5, [t |-> ty, data |-> d]) : ty \in {65280, 1234},
                             d \in {<<>>, <<0>>, <<255>>, <<0, 165>>, <<10, 11, 12>>, <<1, 2, 3, 4, 5>>}}
     [] g = "ctt"    -> {Rec(<<Lex>>, c, ttl, TxtX) : c \in {1, 3, 4, 254, 255, 2, 4660, 65535},
-                            ttl \in {0, 1, 3600, 2147483647}}
+                            ttl \in {0, 1, 120, 3600, 172800, 2147483647}}
 Groups == {"owner1", "owner2", "txt", "hinfo", "name", "mx", "generic", "ctt"}
 
 Init == /\ grp \in Groups /\ r \in Group(grp) /\ kind \in Kinds /\ origin \in Origins
@@ -46,22 +46,54 @@ Spec == Init /\ [][Next]_vars
 
 \* the property on the composed specification (writer deviations Dev)
 ReadEqualsWritten == RoundTrip(r, kind, origin, Dev \cap WriterDevs)
+\* ... through the token route (record data as a token list, IterScanner)
+TokensReadEqualWritten == TokenRoundTrip(r, kind, Dev)
+\* ... and for the field texts on their own (Label / OwnedLabel, CharStr unquoted)
+StringsOf(rd) == IF rd.t = 16 THEN rd.strs ELSE IF rd.t = 13 THEN <<rd.cpu, rd.os>> ELSE <<>>
+FieldTextsReadEqualWritten ==
+  /\ \A i \in 1..Len(r.owner) : LabelTextRoundTrip(r.owner[i], Dev \cap WriterDevs)
+  /\ \A i \in 1..Len(StringsOf(r.rd)) : CharStrTextRoundTrip(StringsOf(r.rd)[i])
+
+\* Routes: further ways to build the record (Record::new / From tuples /
+\* set_class / RecordHeader::into_record / Record::parse), its data (wire /
+\* typed constructors / builders), and to write it (as it is / as
+\* AllRecordData / through a reference / with parsed names).  They are
+\* aliases: the expectation does not depend on them.  Every case is given
+\* one combination, spread over the grid by a checksum of the record.
+MkRoutes == <<"new", "tuple_u32", "tuple_ttl", "in_default", "header", "parse">>
+MkdRoutes == <<"wire", "typed", "builder">>
+WrRoutes == <<"zone", "all", "ref", "parsed">>
+RECURSIVE SumFrom(_, _)
+SumFrom(s, i) == IF i > Len(s) THEN 0 ELSE (s[i] + 31 * SumFrom(s, i + 1)) % 100003
+Sum(s) == SumFrom(s, 1)
+RouteOf(h) == <<MkRoutes[1 + (h % 6)], MkdRoutes[1 + ((h \div 6) % 3)], WrRoutes[1 + ((h \div 18) % 4)]>>
 
 --------------------------------------------------------------------------
 ReaderDevs == AllDevs      \* the reader as the code has it today (C07's findings)
 Emit ==
   LET ideal == WText(r, kind, {})
       code  == WText(r, kind, WriterDevs)
+      strs == StringsOf(r.rd)
       inp == [owner |-> WireName(r.owner), class |-> r.class, ttl |-> r.ttl, rtype |-> r.rd.t,
-              rdata |-> RdWire(r.rd), kind |-> kind, origin |-> origin, stext |-> ideal, grp |-> grp]
-      expd == [lib |-> "eq", spec |-> "eq"]
+              rdata |-> RdWire(r.rd), kind |-> kind, origin |-> origin, stext |-> ideal, grp |-> grp,
+              route |-> RouteOf(Sum(ideal) + Len(origin)),
+              toks |-> RdTokens(r.rd, kind, {}),
+              ltexts |-> [i \in 1..Len(r.owner) |-> [l |-> r.owner[i], t |-> WLabel(r.owner[i], {})]],
+              ctexts |-> [i \in 1..Len(strs) |-> [s |-> strs[i], t |-> WUnquoted(strs[i])]]]
+      tokRead(dv) == ReadTokens(r.rd.t, RdTokens(r.rd, kind, {}), dv)
+      tokOut(dv) == IF tokRead(dv) = [rd |-> RdWire(r.rd)] THEN "eq" ELSE tokRead(dv)
+      rest(dv) == [spec |-> "eq", tok |-> tokOut(dv), lbl |-> "eq", cs |-> "eq"]
+      expd == [lib |-> "eq"] @@ rest({})
       \* what the reader makes of the text the code writes today
       o0 == ReadBack(code, origin, {})
       o1 == ReadBack(code, origin, ReaderDevs)
       which == IF WText(r, kind, {"D_label_escape_set"}) # ideal THEN "D_label_escape_set" ELSE "D_display_root_dot"
-  IN IF code = ideal THEN PrintT("CASE " \o ToJson([in |-> inp, exp |-> expd]))
+  IN IF code = ideal THEN
+        (IF tokRead(TokenDevs) = tokRead({}) THEN PrintT("CASE " \o ToJson([in |-> inp, exp |-> expd]))
+         ELSE PrintT("CASE " \o ToJson([in |-> inp, exp |-> expd,
+                   dev |-> [x \in {"D_iterscanner_marker"} |-> [lib |-> "eq"] @@ rest(TokenDevs)]])))
      ELSE IF o0 # o1 \/ o0 = Unmodelled THEN TRUE      \* reader deviations interfere: skip
      ELSE IF o0 = Expected(r) THEN PrintT("CASE " \o ToJson([in |-> inp, exp |-> expd]))
      ELSE PrintT("CASE " \o ToJson([in |-> inp, exp |-> expd,
-                   dev |-> [x \in {which} |-> [lib |-> o0, spec |-> "eq"]]]))
+                   dev |-> [x \in {which} |-> [lib |-> o0] @@ rest({})]]))
 =============================================================================
